@@ -18,7 +18,7 @@ for p in sorted(glob.glob(os.path.join(ROOT, "seeded", "*", "meta.json"))):
     summ = re.sub(r"\s+", " ", m.get("summary") or "")[:170]
     files = ", ".join(f.replace("src/", "") for f in (m.get("files_changed") or []))
     rows.append(f"| {name} | {files} | {summ} | {chk.get('verdict','?')}: {first} | {also or '–'} | {silent or '–'} |")
-text = f"""Two hundred and forty changes were produced in six rounds by fresh sub-agents (twenty agents per
+text = f"""Two hundred and eighty changes were produced in seven rounds by fresh sub-agents (twenty agents per
 round, two changes per property and round; from round 2 on each agent was told which
 ideas round 1 had used and asked for different functions, drivers and kinds of mistake), each given
 only the property text and its own scratch worktree of `/repo` — nothing from `/verif`.  Each change
@@ -26,8 +26,8 @@ compiles, passes the 57 existing tests, and comes with a demonstration that fail
 without it; all of that was re-confirmed by `tools/seed_eval.py` in a scratch worktree (build with and
 without the guard, suite, demonstration both ways) before the checks were run against it.  They are kept
 under `seeded/<id>/` (`patch.diff`, the demonstration, `meta.json` with what was run and the verdicts;
-ids `Cxx-1/2` = round 1, `Cxx-3/4` = round 2, `Cxx-5/6` = round 3, `Cxx-7/8` = round 4, `Cxx-9/10` = round 5, `Cxx-11/12` = round 6; the agents of
-rounds 3 to 6 were additionally asked
+ids `Cxx-1/2` = round 1, `Cxx-3/4` = round 2, `Cxx-5/6` = round 3, `Cxx-7/8` = round 4, `Cxx-9/10` = round 5, `Cxx-11/12` = round 6, `Cxx-13/14` = round 7; the agents of
+rounds 3 to 7 were additionally asked
 for changes that would slip past a differential test driven by mostly well-formed random sequences
 and a simple device model: single feature combinations or transports, behaviour after an error
 path, numeric boundaries, interleavings of two queues or of blocking and non-blocking calls, unusual
@@ -149,10 +149,32 @@ first pass: 27 of 40 concrete, 5 `no-failing-input-found`, 8 missed:
 | C02-12 console `Drop` leaves the transmit queue programmed | — | not strengthened: with the transports' reset at drop the device is quiesced before the memory goes (C09's oracles agree); the model transcript differs, so C02/C08/C09 report it without a failing input |
 | C07-11 `recycle_descriptors` no longer clears freed shadow descriptors | — | **rejected as a seed**: it only shows when a caller pops a token it no longer has outstanding, which the `unsafe fn pop_used` contract excludes (the unchanged code corrupts its free list and calls `unshare` with address 0 in the same situation) |
 
-Check bugs that surfaced on the way: §9, 13–19.  With the two exceptions named in the last table
-(C02-12, C07-11) all 240 are reported with a concrete replay by the check of their own property; the
-120 of rounds 1–3 were re-run after the comparison changes of §9.16 (one, C20-3, no longer applies: it
-edits lines that repair F15 rewrote).  The last two
+Round 7 (additionally: provided trait methods, `as` casts, Display/From impls, rarely used public entry
+points, slow leaks, second attempts after a failure), first pass: 26 of 40 concrete, one more
+(C14-13, a free list that runs into a live chain) killed the harness with SIGSEGV and was pinned on its
+case by `check`, 8 `no-failing-input-found`, 4 missed, 1 out of reach:
+
+| missed | why | added |
+|---|---|---|
+| C01-13 `add` falls back to a direct chain when the indirect table cannot be allocated, after a capacity check made for the indirect case | the heap never failed | the harness allocator can fail the next 16-aligned zeroed allocation; indirect queues get a multi-buffer submission at that moment (model op `add_oom`: refused) |
+| C03-13 `pop_used` compares the token with the stale used element before checking that anything is pending (model only) | no oracle distinguished the two refusals | `WrongToken` while nothing is pending is a failure (`NotReady` is what keeps a caller polling) |
+| C05-14 console `wait_for_receive` no longer posts a buffer (model only in C05) | the blocking co-simulation watched notifications, not what the call was waiting for | a blocking receive call that keeps spinning with nothing posted is reported |
+| C06-13 `VirtQueue::new` reads `queue_used` back after `queue_set` and fails without unregistering (model only) | every transport reported a configured queue as in use | the layout grid's transport never reports "in use" unless told to |
+| C06-14 `PciTransport` caches the selected queue across a device reset (model only in C06) | C06 kept only its own tags of the PCI stream | the "queue_select first" oracles of the PCI stream carry a C06 copy |
+| C09-13 blocking helper returns `IoError` when the status register shows `DEVICE_NEEDS_RESET`, leaving its chain posted | the status register read back what was written during requests | one blocking request in five runs with `DEVICE_NEEDS_RESET` reading back while the device still completes it; C03, C04 and C09 run those cases |
+| C10-13 `read_consistent` samples the generation once, then never terminates after a change | C10 did not run multi-field reads; in C13 the runaway read ended in an abort: the access-budget panic unwound into `MmioTransport::drop`, whose register write panicked again | C10 runs C13's MMIO rows; after a budget panic the bus grants a fresh allowance to the destructors (§9.22) |
+| C10-14 MMIO config accessors accept 8-aligned types (model only) | — | oracle: an 8-aligned type is refused, not read as one 64-bit access |
+| C16-14 `RxBuffer::packet_len` narrowed to `u16` | receive buffers were at most 4 KiB | `net-jumbo`: 70 000-byte buffers, frames of 65 535 … 69 000 bytes |
+| C19-13 / C19-14 connection manager: ring buffer indexed with a mask; a reset discards unread data (model only in C19) | C19 kept only two oracles of the socket stream | C19 keeps all of them (the connection manager is the caller-facing end of the socket receive path) |
+| C07-13 block constructor reads the capacity after creating its queue; on a short configuration space the queue memory is released while still registered | — | not strengthened: the device is not live (no `DRIVER_OK` yet) and the transport, dropped with the failed constructor, resets it; reported without a failing input (constructor transcript differs) |
+| C03-14 capacity clause of `add` lost in builds without the `alloc` feature | — | out of reach: the harness builds the crate with its default features (§7) |
+
+Check bugs that surfaced on the way: §9, 13–22.  With the exceptions named in the tables (C02-12,
+C07-11, C07-13, C03-14) all 280 are reported with a concrete replay by the check of their own property.
+After the last strengthening every seed of rounds 1–6 was run once more against the final checks
+(`out/reeval2_*.log`): the same verdicts, except for two C05 seeds whose oracle had been switched off by
+a harness bug introduced in round 6 (§9.21, repaired) and C20-3, which no longer applies (it edits lines
+that repair F15 rewrote).  The last two
 columns come from running further related checks against a change (`tools/seed_cross.py`, run for part
 of round 1 only); † = reported as `no-failing-input-found`.
 
